@@ -24,3 +24,16 @@ Proof.
   apply (Permutation_in _ (Permutation_sym (NASort.Permuted_sort _))) in H.
   now apply filter_In in H.
 Qed.
+
+(* the order, spelled out: names compared bytewise (Go string <), equal names by arity as a NUMBER
+   (so f/2 precedes f/10, which a sort of the printed strings "f/10" < "f/2" would not give) *)
+Lemma na_less_spec : forall n1 a1 n2 a2,
+  na_less (n1, a1) (n2, a2) = true <-> bytes_ltb n1 n2 = true \/ (n1 = n2 /\ (a1 < a2)%N).
+Proof.
+  intros n1 a1 n2 a2. unfold na_less. cbn [fst snd]. rewrite orb_true_iff, andb_true_iff, N.ltb_lt.
+  assert (E : bytes_eqb n1 n2 = true <-> n1 = n2).
+  { revert n2. induction n1 as [| x l IH]; destruct n2 as [| y l2]; cbn; split; try discriminate; try reflexivity.
+    - intro H. apply andb_true_iff in H. destruct H as [H1 H2]. apply N.eqb_eq in H1. apply IH in H2. congruence.
+    - intro H. inversion H; subst. rewrite N.eqb_refl. cbn. now apply IH. }
+  rewrite E. tauto.
+Qed.
